@@ -4,6 +4,8 @@ CONSTANTS
   Interleave = FALSE
   SeqParams <- SeqPlain
   Modes = {"None", "Sign", "SignAndEncrypt"}
+  Splits = {"tinyfirst", "tinylast"}
+  PreInjects = {"none"}
   Moves = {}
   Damages = {}
   Injects = {}
